@@ -59,7 +59,8 @@ def units(tier, seed):
 
 
 def sub(args, hashseed):
-    env = dict(os.environ, PYTHONPATH=ROOT, PYTHONDONTWRITEBYTECODE="1",
+    pp = (os.environ["PGMC_REPO"] + ":" if os.environ.get("PGMC_REPO") else "") + ROOT
+    env = dict(os.environ, PYTHONPATH=pp, PYTHONDONTWRITEBYTECODE="1",
                PYTHONHASHSEED=str(hashseed))
     r = subprocess.run([sys.executable, "-m", "props.c16_sub"] + args,
                        capture_output=True, text=True, env=env, cwd=ROOT,
